@@ -1,3 +1,3 @@
+pub mod app;
 pub mod link;
 pub mod transport;
-pub mod app;
